@@ -365,6 +365,67 @@ def register(op):
         fresh()
         return res
 
+    @op("c11_reaction_differs")
+    def _(arg):
+        """Two reactions whose reactant multisets, product multisets or types differ (a multiplicity changed, a member
+        added, dropped or exchanged, another type) are requested one after the other, both unnamed and both alive: they are
+        different objects with different canonical forms and automatic names, each lists ITS members in canonical order with
+        its own arity (also when looked at again after the other one exists), and each is found again by a permutation of
+        its own arguments.
+        arg = [kind, specs, [re, pr, rtype], [re, pr, rtype], k]   (kind/specs as in c11_reaction); returns problems"""
+        kind, specs, one, two, k = arg
+        one, two = one[:3], two[:3]                # a fourth entry names the change for the report
+        fresh()
+        if kind == "c":
+            objs = [cplx(s, name=f"X{i}") for i, s in enumerate(specs)]
+        else:
+            objs = []
+            for i, spec in enumerate(specs):
+                cs = [cplx(s, name=f"X{i}_{j}") for j, s in enumerate(spec[0])]
+                objs.append(MAC[spec[1]](cs, name=cs[spec[2]].name) if len(spec) > 2 and spec[2] is not None else MAC[spec[1]](cs))
+        ck = lambda o: o.canonical_form
+        observe = lambda o: [o.name, rkey(o, kind), [[x.name for x in o.reactants], [x.name for x in o.products]],
+                             list(o.arity), o.rtype]
+        problems, rs, first_obs = [], [], []
+        for n, (re, pr, rtype) in enumerate((one, two)):
+            try:
+                r = RXN[k]([objs[i] for i in re], [objs[i] for i in pr], rtype)
+            except bc.SingletonError as e:
+                problems.append([n, "refused", e.existing is not None and e.existing in rs, None])
+                break
+            rs.append(r)
+            first_obs.append(observe(r))
+        if len(rs) == 2:
+            r1, r2 = rs
+            if r1 is r2:
+                problems.append([1, "same-object", first_obs[0][0], None])
+            if r1 == r2 or not (r1 != r2):
+                problems.append([1, "compare-equal", None, None])
+            if first_obs[0][1] == first_obs[1][1]:
+                problems.append([1, "same-canonical-form", None, None])
+            if first_obs[0][0] == first_obs[1][0]:
+                problems.append([1, "same-name", first_obs[0][0], None])
+            for n, (re, pr, rtype) in enumerate((one, two)):
+                now = observe(rs[n])
+                want = [[x.name for x in sorted((objs[i] for i in re), key=ck)], [x.name for x in sorted((objs[i] for i in pr), key=ck)]]
+                if now[2] != want or now[3] != [len(re), len(pr)] or now[4] != rtype:
+                    problems.append([n, "members", [now[2], now[3], now[4]], [want, [len(re), len(pr)], rtype]])
+                if [len(now[1][0]), len(now[1][1])] != [len(re), len(pr)]:
+                    problems.append([n, "canonical-form-size", [len(now[1][0]), len(now[1][1])], [len(re), len(pr)]])
+                if now != first_obs[n]:
+                    problems.append([n, "changed-by-other-request", now, first_obs[n]])
+                try:
+                    again = RXN[k](tuple(objs[i] for i in reversed(re)), tuple(objs[i] for i in reversed(pr)), rtype)
+                except bc.SingletonError as e:
+                    again = e.existing
+                if again is not rs[n]:
+                    problems.append([n, "permutation-is-another-object", None, None])
+            del r1, r2, again
+        r = None
+        del rs, objs
+        fresh()
+        return problems
+
     @op("c11_macro_caller_args")
     def _(arg):
         """A macrostate keeps the set of complexes it was made from whatever the caller does with HIS container afterwards
